@@ -127,6 +127,15 @@ CLAIMED = {
              'names in numeric positions, wrong operand counts, mixed-case mnemonics; the image must carry the encoding of the '
              'first accepting candidate in the documented order, or the statement must be rejected when none accepts.',
         note='Trusted: acceptance table and priority classes in vf/oracles/c13.py; ties inside one priority class are DONT_CARE.'),
+    'C15': dict(
+        category='exploration', design_ref='DESIGN.md §3 C15',
+        technique='runtime monitoring: byte-identity of all outputs across interpreter hash seeds (one zygote pool per seed), '
+                  'environment / working-directory / include-order permutations; set-iteration-order probe',
+        text='Generated-ISA programs, multi-file programs with up to 3 include directories and the example programs are '
+             'assembled to the image and the four formats under 8 hash seeds (incl. random), 3 environments, other working '
+             'directories with absolute arguments, and every permutation / duplicate / symlink alias of the include directories; '
+             'all outputs must equal the baseline run\'s. The probe reports how many distinct set iteration orders occurred.',
+        note='Trusted: scratch-path normalisation; BESPOKEASM_* variables are inputs and never set.'),
     'C16': dict(
         category='exploration', design_ref='DESIGN.md §3 C16',
         technique='runtime monitoring: independent format decoders (Intel HEX, hex dump, compact hex, listing) vs the layout '
